@@ -323,14 +323,16 @@ theorem guards_sites2 :
     Facts.C14.conds_extractCondFmtCellIs = ["len(c.Formula) == 2", "len(c.Formula) > 0"] ∧
     Facts.C14.index_extractCondFmtCellIs = ["operatorType[c.Operator]", "c.Formula[0]", "c.Formula[1]", "c.Formula[0]"] := by decide
 
-/-- merged cells: rectangle guard, no caching of invalid references, the matrix index sites -/
+/-- merged cells: rectangle guard, no caching of invalid references; the overlap normalisation works on
+the rectangles only (`isOverlap`, `mergeCell`) — there is no index into a matrix over the worksheet -/
 theorem guards_merge :
     "len(ws.MergeCells.Cells[i].rect) == 4 && cellInRange([]int{col, row}, ws.MergeCells.Cells[i].rect)" ∈ Facts.C14.conds_mergeCellsParser ∧
     Facts.C14.index_cellInRange = ["cell[0]", "ref[0]", "cell[0]", "ref[2]", "cell[1]", "ref[1]", "cell[1]", "ref[3]"] ∧
     Facts.C14.conds_mergeCellRect = ["mc.rect == nil", "!strings.Contains(mergedCellsRef, \":\")", "err != nil"] ∧
-    Facts.C14.conds_overlapRange = ["mergeCell == nil", "rect, err = mergeCell.Rect(); err != nil", "x1 > col", "x2 > col", "y1 > row", "y2 > row"] ∧
-    "rows == 0 || cols == 0" ∈ Facts.C14.conds_mergeOverlapCells ∧
-    "matrix[x1][y1]" ∈ Facts.C14.index_mergeOverlapCells := by decide
+    Facts.C14.conds_flatMergedCells = ["cell == nil", "err != nil", "isOverlap(rect, other.rect)", "len(overlapCells) == 0"] ∧
+    Facts.C14.index_flatMergedCells = ["cells[:0]"] ∧
+    Facts.C14.index_isOverlap = ["rect1[0]", "rect2[2]", "rect2[0]", "rect1[2]", "rect1[1]", "rect2[3]", "rect2[1]", "rect1[3]"] ∧
+    Facts.C14.index_mergeOverlapCells = [] := by decide
 
 /-- compound file header, stream extraction, agile descriptor validation and the slices behind it -/
 theorem guards_agile :
@@ -347,8 +349,8 @@ theorem guards_agile :
     Facts.C14.conds_convertPasswdToKey = ["err != nil", "err != nil", "len(key) < keyBytes", "len(key) > keyBytes"] ∧
     "key[:keyBytes]" ∈ Facts.C14.index_convertPasswdToKey ∧
     Facts.C14.conds_decrypt = ["err != nil", "len(iv) != block.BlockSize() || len(input)%block.BlockSize() != 0"] ∧
-    Facts.C14.conds_decryptPackage = ["len(input) < offset", "end > len(input)", "(end + offset) < len(input)", "remainder != 0", "err != nil", "err != nil"] ∧
-    Facts.C14.index_decryptPackage = ["input[start+offset : end+offset]", "input[start+offset : end]"] ∧
+    Facts.C14.conds_decryptPackage = ["len(input) < offset", "end > len(data)", "remainder != 0", "err != nil", "err != nil"] ∧
+    Facts.C14.index_decryptPackage = ["input[offset:]", "data[start:end]"] ∧
     Facts.C14.index_createIV = ["iv[:encryptedKey.BlockSize]"] := by decide
 
 /-- `GetStyle` never indexes the cell-format, fill, border or font tables out of range: every style
@@ -387,37 +389,20 @@ theorem rect_not_cached_on_error (cached' : Option (List Int)) (r : List Int)
     (h : rectOf none none = .ok (r, cached')) : False := by
   simp [rectOf] at h
 
-/-- `mergeOverlapCells`: for every list of merged-cell rectangles with coordinates ≥ 1 (what
-`rangeRefToCoordinates` returns, C20; sorted or not, overlapping or not) every `matrix[x][y]` access of
-the paint loops and of the corner test is inside the `cols × rows` matrix sized by `overlapRange` -/
-theorem no_panic_mergeMatrix (rs : List Rc) (h : ∀ r ∈ rs, 1 ≤ r.x1 ∧ 1 ≤ r.y1 ∧ 1 ≤ r.x2 ∧ 1 ≤ r.y2) :
-    (mergeMatrix rs).isPanic = false := no_panic_mergeMatrix' rs h
+/-- `mergeOverlapCells` / `flatMergedCells` (interval form): for every list of merged-cell rectangles —
+anywhere in the grid, sorted or not — the normalisation yields at most as many merged cells as it was
+given, so its work is bounded by the square of their number and does not depend on the coordinates
+(clauses "run without bound", "allocate out of proportion": no matrix over the worksheet) -/
+theorem merge_normalise_bounded (rs : List Rc) : (normalise rs []).length ≤ rs.length := by
+  have := normalise_length rs []
+  simpa using this
 
-/-- open entry `crash:GetMergeCells`: the bound that DOES hold — the matrix of `mergeOverlapCells` has
-at most TotalRows × MaxColumns cells (it is dense, hence up to 2^34 pointers for one far-corner merge) -/
-theorem mergeMatrix_bounded (rs : List Rc)
-    (h : ∀ r ∈ rs, r.x1 ≤ (Facts.MaxColumns : Int) ∧ r.x2 ≤ (Facts.MaxColumns : Int) ∧
-                   r.y1 ≤ (Facts.TotalRows : Int) ∧ r.y2 ≤ (Facts.TotalRows : Int))
-    (rows cols : Int) (hm : mergeMatrix rs = .ok (rows, cols)) :
-    rows ≤ (Facts.TotalRows : Int) ∧ cols ≤ (Facts.MaxColumns : Int) := by
-  unfold mergeMatrix at hm
-  have hb := overlapRange_le (Facts.TotalRows : Int) (Facts.MaxColumns : Int) rs (0, 0) (by simp) (by simp)
-    (fun r hr => by have := h r hr; omega)
-  generalize overlapRange rs (0, 0) = res at hm hb
-  obtain ⟨a, b⟩ := res
-  simp only at hm hb
-  split at hm
-  · cases hm; constructor <;> omega
-  · split at hm
-    · cases hm
-    · split at hm
-      · cases hm; exact hb
-      · cases hm
-
-/-- … and the witness that the dense matrix really reaches that size: one merge in the far corner -/
-theorem mergeMatrix_far_corner :
-    mergeMatrix [{ x1 := 16383, y1 := 1048575, x2 := 16384, y2 := 1048576 }] = .ok (1048576, 16384) := by
-  simp [mergeMatrix, overlapRange, paintOK]
+/-- each inner round of `flatMergedCells` ends with no listed rectangle overlapping the merged one, within
+`len(cells)` rounds, and never lengthens the list -/
+theorem merge_settle_fixpoint (r : Rc) (cells : List Rc) :
+    (settle (cells.length + 1) r cells).2.length ≤ cells.length ∧
+    ∀ c ∈ (settle (cells.length + 1) r cells).2, isOverlapRc (settle (cells.length + 1) r cells).1 c = false :=
+  settle_spec (cells.length + 1) r cells (by omega)
 
 /-- `checkCompoundFileHeader`: every file length, sector shift and declared sector count -/
 theorem no_panic_cfbHeader (len shift : Nat) (counts : List Nat) : (checkCfbHeader len shift counts).isPanic = false :=
@@ -463,9 +448,11 @@ theorem no_panic_agile_validation (i : AgIn) :
   exact ⟨no_panic_agileKeyLen' i hc.1 hc.2.2.2.1, no_panic_createIV' i hc.2.1,
     fun n => no_panic_padChunk' n _ hc.2.1, hc.2.2.2.2.1, hc.2.2.2.2.2⟩
 
-/-- `agileDecrypt`, partial: never panics provided the EncryptedPackage length leaves room for the
-8-byte offset in its last 4096-byte chunk (`tailOK`: length ≤ 4096, or length mod 4096 = 0 or ≥ 8) -/
-theorem no_panic_agileDecrypt_partial (i : AgIn) (ht : tailOK i.pkgLen = true) : (agileDecrypt i).isPanic = false := by
+/-- clause "malformed encryption containers … never panic", agile path, full strength: for EVERY
+decoded descriptor and EVERY length of the EncryptionInfo / EncryptedPackage streams `agileDecrypt`
+(validation, key derivation slices, package key decryption, the 4096-byte segment loop of
+`decryptPackage`, IV slices, CBC length preconditions) ends in `ok` or `err` -/
+theorem no_panic_agileDecrypt (i : AgIn) : (agileDecrypt i).isPanic = false := by
   unfold agileDecrypt
   split; · rfl
   split
@@ -483,24 +470,18 @@ theorem no_panic_agileDecrypt_partial (i : AgIn) (ht : tailOK i.pkgLen = true) :
   unfold decryptPackage
   split
   · rfl
-  · exact no_panic_pkgLoop' i hk.2.1 (by omega) ht _ 0 (Or.inl rfl)
-
-/-- the missing guard (found by stating the theorem, confirmed on the real code): an EncryptedPackage
-stream of 4100 bytes makes `decryptPackage` slice `input[4104:4100]` -/
-theorem finding_agile_tail_chunk :
-    (agileDecrypt { infoLen := 1000, xmlOK := true, nKE := 1, blockSize := 16, hashLen := 64, keyBits := 256,
-                    spinCount := 1, saltOK := true, saltLen := 16, encKeyOK := true, encKeyLen := 32,
-                    kdSaltOK := true, pkgLen := 4100 }).isPanic = true := by
-  decide +kernel
+  · split
+    · rename_i h1 h2; exfalso; apply h2; simp [sliceOK]; omega
+    · exact no_panic_pkgLoop' i hk.2.1 _ 0
 
 /-! ## unzip limits -/
 
 /-- the size check of `ReadZipReader` is the first thing done with an entry, before the branches that
 spool large worksheet / shared-string parts to temporary files -/
 theorem guards_zip :
-    Facts.C14.conds_ReadZipReader.head? = some "unzipSize > f.options.UnzipSizeLimit" ∧
+    Facts.C14.conds_ReadZipReader.head? = some "fileSize < 0 || unzipSize < 0 || unzipSize > f.options.UnzipSizeLimit" ∧
     Facts.C14.stmts_ReadZipReader_loop.take 3 =
-      ["fileSize := v.FileInfo().Size()", "unzipSize += fileSize", "if unzipSize > f.options.UnzipSizeLimit"] := by decide
+      ["fileSize := v.FileInfo().Size()", "unzipSize += fileSize", "if fileSize < 0 || unzipSize < 0 || unzipSize > f.options.UnzipSizeLimit"] := by decide
 
 /-- clause "allocate memory out of proportion to the configured unzip limits": a package is accepted
 exactly when the declared sizes of ALL its entries (spooled or not) sum to at most `UnzipSizeLimit` -/
@@ -517,6 +498,21 @@ theorem unzip_limit_exact (sizes : List Nat) (limit xmlLimit : Nat) (hx : xmlLim
     · cases h
   · intro h
     rw [if_pos (this.mpr h)]
+
+/-- … also for what a hostile central directory can declare: sizes read as signed 64-bit values
+(negative for declared sizes ≥ 2^63) with a running total that wraps like Go's `int64`. An accepted
+package has no negative size and its TRUE (unwrapped) total is within the limit: the accounting cannot
+be bypassed by overflow -/
+theorem unzip_limit_no_overflow (sizes : List Int) (limit : Int) (h0 : 0 ≤ limit)
+    (hl : limit < 9223372036854775808) (hs : ∀ s ∈ sizes, s < 9223372036854775808)
+    (h : zipAccountI sizes 0 limit = true) : (∀ s ∈ sizes, 0 ≤ s) ∧ sizes.sum ≤ limit := by
+  have := zipAccountI_sound sizes 0 limit (Int.le_refl _) h0 hl hs h
+  simpa using this
+
+/-- the overflow guard is not vacuous: two entries declaring 2^62 + 2^62 + … wrap the total negative and are rejected -/
+theorem unzip_overflow_rejected :
+    zipAccountI [4611686018427387904, 4611686018427387904] 0 9223372036854775807 = false := by
+  decide +kernel
 
 /-! ## non-vacuity -/
 
